@@ -107,6 +107,7 @@ pub async fn run_suite(suite: &str, seed: u64, cases: usize) -> (String, String)
             "loop" => crate::loopsim::gen_loop(&mut sim.trace, &mut crng, &mut stats.counts, &name).await,
             "apply" => gen_apply(&mut sim, &mut crng, &mut stats, &name).await,
             "catchup" => gen_catchup(&mut sim, &mut crng, &mut stats, &name).await,
+            "kf1" => gen_kf1(&mut sim, &mut crng, &mut stats, &name).await,
             other => panic!("unknown suite {other}"),
         }
         stats.bump("cases");
@@ -1323,4 +1324,61 @@ pub async fn gen_select(sim: &mut Sim, rng: &mut Prng, stats: &mut Stats, name: 
             stats.bump("select_dead_outnumber_live");
         }
     }
+}
+
+
+// ------------------------------------------------------------------------------------------
+// S-kf1: the known finding KF-1 (C02) replayed on the implementation, with variations: the owner
+// writes some keys, a peer B syncs, the owner deletes one (or marks it with a TTL) and collects
+// the tombstone after the grace period, a fresh node C syncs with the owner, then with the stale
+// B (the weak acceptance), then with the owner again; optionally a further fresh node D syncs
+// with C (the resurrected key is relayed).
+fn full_handshake(sim: &mut Sim, a: usize, b: usize) {
+    if let Some(syn) = sim.syn(a) {
+        if let Some(synack) = sim.deliver(b, &syn) {
+            if let Some(ack) = sim.deliver(a, &synack) {
+                sim.deliver(b, &ack);
+            }
+        }
+    }
+}
+
+async fn gen_kf1(sim: &mut Sim, rng: &mut Prng, stats: &mut Stats, name: &str) {
+    sim.start_case(name);
+    let grace: u64 = *rng.pick(&[1_000u64, 1_000_000, 1_000_000_000]);
+    let mk = |nm: &str, port: u16| {
+        let mut s = NodeSpec::simple(mk_id(nm, 0, port));
+        s.kv_grace_ns = grace;
+        s
+    };
+    sim.join(mk("a", 3000));
+    let nkeys = rng.range(2, 5) as usize;
+    let keys: Vec<String> = (0..nkeys).map(|i| format!("k{i}")).collect();
+    for (i, k) in keys.iter().enumerate() {
+        sim.set(0, k, &format!("v{i}"));
+    }
+    // the deleted key must not be the first one written: the fresh copy needs max_version >= 1
+    // KF-1 needs the victim's version above every surviving key's; otherwise the history is benign
+    let victim = if rng.chance(3, 4) { nkeys - 1 } else { rng.range(1, nkeys as u64 - 1) as usize };
+    sim.join(mk("b", 3001));
+    full_handshake(sim, 1, 0);
+    if rng.chance(1, 2) {
+        sim.delete(0, &keys[victim]);
+        stats.bump("kf1_delete");
+    } else {
+        sim.delete_after_ttl(0, &keys[victim]);
+        stats.bump("kf1_delete_ttl");
+    }
+    sim.tick(grace + rng.range(0, 5)).await;
+    sim.gc(0);
+    sim.join(mk("c", 3002));
+    full_handshake(sim, 2, 0);
+    full_handshake(sim, 2, 1);
+    full_handshake(sim, 2, 0);
+    if rng.chance(1, 2) {
+        sim.join(mk("d", 3003));
+        full_handshake(sim, 3, 2);
+        stats.bump("kf1_relayed");
+    }
+    stats.bump("kf1_histories");
 }
